@@ -40,6 +40,8 @@ type Opts struct {
 	Records func(rng *rand.Rand) []byte
 	// MaxString bounds generated strings (default 40 hostile / 12 tame)
 	MaxString int
+	// OnlyPartitionZero (tame mode): every partition index is 0, which exists in every topic
+	OnlyPartitionZero bool
 }
 
 var tagsType = reflect.TypeOf(kmsg.Tags{})
@@ -91,9 +93,12 @@ func pick(rng *rand.Rand, pool []string, fallback string) string {
 }
 
 // tameInt bounds integers by field name; ok=false => no rule, use anyInt.
-func tameInt(rng *rand.Rand, name string) (int64, bool) {
+func tameInt(rng *rand.Rand, name string, o *Opts) (int64, bool) {
 	switch name {
 	case "Partition":
+		if o.OnlyPartitionZero {
+			return 0, true
+		}
 		if rng.Intn(12) == 0 {
 			return []int64{-1, 3, 7}[rng.Intn(3)], true
 		}
@@ -210,7 +215,7 @@ func fillValue(rng *rand.Rand, fv reflect.Value, name string, o *Opts, depth int
 		fv.SetBool(rng.Intn(2) == 0)
 	case reflect.Int8, reflect.Int16, reflect.Int32, reflect.Int64:
 		if o.Tame {
-			if x, ok := tameInt(rng, name); ok {
+			if x, ok := tameInt(rng, name, o); ok {
 				fv.SetInt(truncInt(x, fv.Kind()))
 				return
 			}
